@@ -64,6 +64,24 @@ pub trait Real {
     fn fingerprint(&mut self) -> Option<u64> {
         None
     }
+    /// the complete memory image(s) of the object (header + payload), for the hand-over to another process
+    fn image(&mut self) -> Option<Vec<Vec<u8>>> {
+        None
+    }
+    /// overwrites the memory of this (freshly constructed, same kind / capacity) object with the image(s) taken
+    /// in ANOTHER process: what every process that opens a shared-memory segment sees (C14)
+    fn adopt(&mut self, _images: &[Vec<u8>]) -> bool {
+        false
+    }
+    /// finer than `supports`: is this edge (action + scalar arguments) meaningful for the flavour
+    fn supports_edge(&self, _a: &str, _i: &[i64]) -> bool {
+        true
+    }
+}
+
+pub fn copy_region(r: Option<(*const u8, usize)>) -> Option<Vec<u8>> {
+    let (p, n) = r?;
+    Some(unsafe { core::slice::from_raw_parts(p, n) }.to_vec())
 }
 
 macro_rules! check {
@@ -142,6 +160,12 @@ impl<V: Vector<Tok>, H: Holder<V>> Real for VecReal<V, H> {
     }
     fn fingerprint(&mut self) -> Option<u64> {
         fingerprint(&[self.h.bytes()])
+    }
+    fn image(&mut self) -> Option<Vec<Vec<u8>>> {
+        Some(vec![copy_region(self.h.bytes())?])
+    }
+    fn adopt(&mut self, images: &[Vec<u8>]) -> bool {
+        images.len() == 1 && self.h.overwrite(&images[0])
     }
 }
 
@@ -255,6 +279,12 @@ impl<QT: QueueLike<Tok>, QC: QueueLike<u32> + QueueGet, HT: Holder<QT>, HC: Hold
     fn fingerprint(&mut self) -> Option<u64> {
         fingerprint(&[self.t.bytes(), self.c.bytes()])
     }
+    fn image(&mut self) -> Option<Vec<Vec<u8>>> {
+        Some(vec![copy_region(self.t.bytes())?, copy_region(self.c.bytes())?])
+    }
+    fn adopt(&mut self, images: &[Vec<u8>]) -> bool {
+        images.len() == 2 && self.t.overwrite(&images[0]) && self.c.overwrite(&images[1])
+    }
 }
 
 // ------------------------------------------------------------------------------------------------
@@ -357,6 +387,12 @@ impl<S: SlotLike, H: Holder<S>> Real for SlotReal<S, H> {
     fn fingerprint(&mut self) -> Option<u64> {
         fingerprint(&[self.h.bytes()])
     }
+    fn image(&mut self) -> Option<Vec<Vec<u8>>> {
+        Some(vec![copy_region(self.h.bytes())?])
+    }
+    fn adopt(&mut self, images: &[Vec<u8>]) -> bool {
+        images.len() == 1 && self.h.overwrite(&images[0])
+    }
 }
 
 // ------------------------------------------------------------------------------------------------
@@ -455,6 +491,12 @@ impl<F: FlatLike, H: Holder<F>> Real for FlatReal<F, H> {
     fn fingerprint(&mut self) -> Option<u64> {
         fingerprint(&[self.h.bytes()])
     }
+    fn image(&mut self) -> Option<Vec<Vec<u8>>> {
+        Some(vec![copy_region(self.h.bytes())?])
+    }
+    fn adopt(&mut self, images: &[Vec<u8>]) -> bool {
+        images.len() == 1 && self.h.overwrite(&images[0])
+    }
 }
 
 // ------------------------------------------------------------------------------------------------
@@ -543,6 +585,12 @@ impl<S: IoxString, H: Holder<S>> Real for StrReal<S, H> {
     }
     fn fingerprint(&mut self) -> Option<u64> {
         fingerprint(&[self.h.bytes()])
+    }
+    fn image(&mut self) -> Option<Vec<Vec<u8>>> {
+        Some(vec![copy_region(self.h.bytes())?])
+    }
+    fn adopt(&mut self, images: &[Vec<u8>]) -> bool {
+        images.len() == 1 && self.h.overwrite(&images[0])
     }
 }
 
@@ -720,6 +768,12 @@ impl<Q: IdxQueueLike, H: Holder<Q>> Real for IdxQueueReal<Q, H> {
     fn fingerprint(&mut self) -> Option<u64> {
         fingerprint(&[self.h.bytes()])
     }
+    fn image(&mut self) -> Option<Vec<Vec<u8>>> {
+        Some(vec![copy_region(self.h.bytes())?])
+    }
+    fn adopt(&mut self, images: &[Vec<u8>]) -> bool {
+        images.len() == 1 && self.h.overwrite(&images[0])
+    }
 }
 
 // ------------------------------------------------------------------------------------------------
@@ -783,6 +837,12 @@ impl<S: IdxSetLike, H: Holder<S>> Real for IdxSetReal<S, H> {
     }
     fn fingerprint(&mut self) -> Option<u64> {
         fingerprint(&[self.h.bytes()])
+    }
+    fn image(&mut self) -> Option<Vec<Vec<u8>>> {
+        Some(vec![copy_region(self.h.bytes())?])
+    }
+    fn adopt(&mut self, images: &[Vec<u8>]) -> bool {
+        images.len() == 1 && self.h.overwrite(&images[0])
     }
 }
 
@@ -851,6 +911,12 @@ impl<S: BitSetLike, H: Holder<S>> Real for BitSetReal<S, H> {
     }
     fn fingerprint(&mut self) -> Option<u64> {
         fingerprint(&[self.h.bytes()])
+    }
+    fn image(&mut self) -> Option<Vec<Vec<u8>>> {
+        Some(vec![copy_region(self.h.bytes())?])
+    }
+    fn adopt(&mut self, images: &[Vec<u8>]) -> bool {
+        images.len() == 1 && self.h.overwrite(&images[0])
     }
 }
 
